@@ -126,19 +126,20 @@ class Accounting(Case):
         self.functions = (getattr(self.mod, self.fn),)
         self.name = f"accounting-{self.fn}-envs{num_envs}-pop{pop}"
         self.site = f"{self.fn}/accounting"
-        self.bounds = {"loop": self.fn, "num_envs": num_envs, "population": pop, "symbolic": "max_steps in [1,8], evo_steps in [1,4], learn_step in [1,3]"}
+        self.bounds = {"loop": self.fn, "num_envs": num_envs, "population": pop, "symbolic": "max_steps in [1,8], evo_steps in [1,4], every agent's own learn_step in [1,3]"}
 
     def run(self, v):
         E, P = self.E, self.P
-        max_steps, evo, ls = v.int("max_steps"), v.int("evo_steps"), v.int("learn_step")
-        v.assume(conj(max_steps >= 1, max_steps <= 8, evo >= 1, evo <= 4, ls >= 1, ls <= 3))
+        max_steps, evo = v.int("max_steps"), v.int("evo_steps")
+        lss = [v.int(f"learn_step{i}") for i in range(P)]          # per agent: members of a population may differ
+        v.assume(conj(max_steps >= 1, max_steps <= 8, evo >= 1, evo <= 4, *[conj(x >= 1, x <= 3) for x in lss]))
         if self.loop == "off":
             # train_off_policy takes evo_steps // num_envs steps per generation: with evo_steps < num_envs no step is ever
             # taken and the budget loop cannot end (a configuration error, not judged here)
             v.assume(evo >= E, "off-policy: evo_steps >= num_envs")
         multi = ["ag_0", "ag_1"] if self.loop == "ma-on" else None
         env = VecEnv(E, multi)
-        pop = [Agent(i, env, ls, multi) for i in range(P)]
+        pop = [Agent(i, env, lss[i], multi) for i in range(P)]
         pop_in = list(pop)
         patches = [(self.mod, "trange", lambda *a, **k: _Bar()), (self.mod, "print", lambda *a, **k: None)]
         if v.mode != "real":
@@ -151,12 +152,14 @@ class Accounting(Case):
                 out_pop, fits = fn(env, "stub-env", "Duck", pop, max_steps=max_steps, evo_steps=evo, verbose=False)
             else:
                 out_pop, fits = fn(env, "stub-env", "Duck", pop, sum_scores=True, max_steps=max_steps, evo_steps=evo, verbose=False)
-        ms, ev, l = cint(max_steps), cint(evo), cint(ls)
-        # reference: environment steps one agent takes per generation, as the loops are documented
+        ms, ev = cint(max_steps), cint(evo)
+        ls_c = [cint(x) for x in lss]
+        # reference: environment steps agent i takes per generation, as the loops are documented
         if self.loop == "off":
-            per_gen = (ev // E) * E
+            per = [(ev // E) * E for _ in ls_c]
         else:
-            per_gen = -(-ev // l) * -(-l // E) * E
+            per = [-(-ev // l) * -(-l // E) * E for l in ls_c]
+        per_gen = min(per)
         res = [Ob("population-keeps-its-size-and-order", len(out_pop) == P and all(a is b for a, b in zip(out_pop, pop_in)))]
         res.append(Ob("indices-stay-distinct", len({a.index for a in out_pop}) == len(out_pop)))
         for a in pop_in:
@@ -167,13 +170,14 @@ class Accounting(Case):
         if per_gen > 0:
             if self.loop == "ma-on":
                 # budget summed over the population
-                done_after = lambda g: P * g * per_gen >= ms
+                done_after = lambda g: sum(g * x for x in per) >= ms
             else:
-                done_after = lambda g: g * per_gen >= ms
+                # per-agent budget: training stops as soon as one agent has met it
+                done_after = lambda g: any(g * x >= ms for x in per)
             res.append(Ob("stops-in-the-first-generation-in-which-the-budget-is-met", G >= 1 and done_after(G) and not done_after(G - 1), site=self.site + "/stop-generation"))
-            res.append(Ob("every-agent-took-the-documented-steps-per-generation", all(a.steps[-1] == G * per_gen for a in pop_in), site=self.site + "/step-counter"))
+            res.append(Ob("every-agent-took-the-documented-steps-per-generation", all(a.steps[-1] == G * x for a, x in zip(pop_in, per)), site=self.site + "/step-counter"))
         if self.loop != "off":
-            res.append(Ob("a-learn-call-after-every-learn_step-chunk", all(a.learns == G * -(-ev // l) for a in pop_in)))
+            res.append(Ob("a-learn-call-after-every-learn_step-chunk", all(a.learns == G * -(-ev // l) for a, l in zip(pop_in, ls_c))))
         res.append(Ob("twin/never-more-than-one-generation", G <= 1, expect="sat"))
         return res
 
